@@ -17,6 +17,7 @@ package query
 import (
 	"log"
 	"regexp/syntax"
+	"unicode"
 
 	"slices"
 
@@ -31,11 +32,7 @@ func LowerRegexp(r *syntax.Regexp) *syntax.Regexp {
 	case syntax.OpLiteral, syntax.OpCharClass:
 		newRE.Rune = make([]rune, len(r.Rune))
 		for i, c := range r.Rune {
-			if c >= 'A' && c <= 'Z' {
-				newRE.Rune[i] = c + 'a' - 'A'
-			} else {
-				newRE.Rune[i] = c
-			}
+			newRE.Rune[i] = unicode.ToLower(c)
 		}
 	default:
 		newRE.Sub = make([]*syntax.Regexp, len(newRE.Sub))
